@@ -240,6 +240,31 @@ def exec (st : State) (toks : List String) : State × List String :=
   -- `load_incremental` of the concatenated raw bytes of the named changes: an EMPTY document (nothing
   -- applied, nothing queued) is replaced by `load(data)` with partial loads allowed; otherwise the
   -- chunks that parse are applied like `apply_changes`
+  -- `load_incremental` of the bytes [start, end) of a registered file
+  | ["crdt.loadpiece", r, f, a, b] =>
+    match st.files.find? (fun p => p.1 == f), a.toNat?, b.toNat? with
+    | some p, some a, some b =>
+      let data := (p.2.drop a).take (b - a)
+      let d := getReplica st r
+      if d.applied.isEmpty && d.queue.isEmpty then
+        match loadDoc st .ignore data with
+        | some (.ok d') => (setReplica st r d', [s!"ok {summary d' (isoOf st r)}"])
+        | some (.error _) => (st, [s!"err {summary d (isoOf st r)}"])
+        | none => (st, ["unknown-chunk"])
+      else
+        let l := Chunk.loadChunks (fun _ _ => true) (data.length + 1) data []
+        match l.chunks.mapM (chunkChanges st) with
+        | none => (st, ["unknown-chunk"])
+        | some css =>
+          -- a document chunk whose heads are all known contributes nothing (load_changes)
+          let batch := (l.chunks.zip css).flatMap (fun p =>
+            if p.1.ty = 0 && (headsOf p.2).all (fun h => d.hasChange h) then [] else p.2)
+          let (d', res) := applyBatch d batch
+          let rs := match res with
+            | .ok _ => "ok"
+            | .error (.duplicateSeq s a) => s!"err dupseq {s} {hexOfBytes a}"
+          (setReplica st r d', [s!"{rs} {summary d' (isoOf st r)}"])
+    | _, _, _ => (st, ["bad-input"])
   | ["crdt.loadinc", r, hs] =>
     match unhxList hs with
     | none => (st, ["bad-input"])
